@@ -79,13 +79,30 @@ ModSpec parse_mod(const std::string& op)
     return m;
 }
 
+// A callable whose invocation is value-category sensitive: called as an RVALUE it "gives its state away" (a second
+// rvalue call does nothing), called as an lvalue it is an ordinary functor.  modify() has to invoke its functor twice,
+// once per copy, so it must call it as an lvalue both times.
+template <class F>
+struct RvalueSensitive {
+    F f;
+    bool spent = false;
+    void operator()(OpLog& x) & { f(x); }
+    void operator()(OpLog& x) &&
+    {
+        if (!spent) {
+            spent = true;
+            f(x);
+        }
+    }
+};
+
 void do_modify(LR& g, const ModSpec& m)
 {
     std::string name = "modify " + std::to_string(m.k);
     verif::emit("call " + name);
     int count = 0;
     try {
-        g.modify([&](OpLog& x) {
+        auto body = [&](OpLog& x) {
             ++count;
             if (m.flag > 0 && count == 1) {
                 flags()[size_t(m.flag) % 32] = 1;
@@ -111,7 +128,12 @@ void do_modify(LR& g, const ModSpec& m)
                 verif::emit("uth");
                 throw vpay::Injected();
             }
-        });
+        };
+        if ((m.k & 1) != 0) {
+            g.modify(RvalueSensitive<decltype(body)>{body});   // unusual but legal: a temporary, rvalue-sensitive callable
+        } else {
+            g.modify(body);
+        }
         verif::emit("ret " + name);
     }
     catch (const vpay::Injected&) {
